@@ -111,6 +111,9 @@ def _peval(t, env: Dict[tuple, object], funcs=None):
         if t[1] in ("in", "notin") and _is_const(l) and r[0] in ("list", "tuple", "set") and all(_is_const(x) for x in r[1]):
             hit = l[1] in [x[1] for x in r[1]]
             return ("const", hit if t[1] == "in" else not hit)
+        if t[1] in ("in", "notin") and _is_const(l) and r[0] == "dict" and all(_is_const(k_) for k_, _ in r[1]):
+            hit = l[1] in [k_[1] for k_, _ in r[1]]
+            return ("const", hit if t[1] == "in" else not hit)
         return ("cmp", t[1], l, r)
     if k == "ite":
         c = peval(t[1], env, funcs)
